@@ -367,7 +367,8 @@ def gen_c12(seed, tier):
     progs = (P.gen_damage_programs(r, N(tier, 8, 60)) + P.gen_commit_programs(r, N(tier, 10, 100)) +
              P.gen_metadata_programs(r, N(tier, 10, 100)) + P.gen_history_programs(r, N(tier, 8, 60), full=True) +
              P.gen_bucket_programs(r, N(tier, 10, 100)) +
-             [p for p in P.gen_hostile_state_programs(r, N(tier, 9, 18)) if p.name.startswith("foreign")])
+             [p for p in P.gen_hostile_state_programs(r, N(tier, 9, 18)) if p.name.startswith("foreign")] +
+             P.gen_size_matrix(G.Rng(seed + 121)))     # every declared-size relation x chunk shape, deterministically
     # sync-only entry points have no async twin: drop them from the comparison programs
     for p in progs:
         p.ops = [o for o in p.ops if o.split(" ")[0] not in P.SYNC_ONLY and not o.startswith("dump")]
@@ -381,7 +382,7 @@ reg("C12",
     extra=lambda seed, tier, flavours: LG.leg_flavours(gen_c12(seed, tier), flavours),
     nontrivial=lambda rr: True,
     rule="each program (damaged content + every retrieval, commits with all declaration combinations, metadata fidelity, "
-         "histories with all removals, damaged buckets, foreign checksummed records with odd integrity texts alone and after a "
+         "histories with all removals, damaged buckets, the declared-size matrix (size =,<,> data x chunk shapes x keyed/by address, the zero boundary), foreign checksummed records with odd integrity texts alone and after a "
          "valid record of the same key) is executed in four forms - all sync, all async, sync-then-async, "
          "async-then-sync - on the async-std and the tokio binary (8 executions); the canonical result streams (default "
          "times masked) must be equal step by step; plus the model correspondence of histories on both binaries")
